@@ -783,6 +783,16 @@ func (x *Exec) evalCall(env *Env, e *Expr) Value {
 			return Scalar{x.bytesEq(env, a, b, e), tyBool}
 		case "isNil":
 			return Scalar{x.specEqual(env, x.eval(env, args[0]), nil, e), tyBool}
+		case "isBytes":
+			// isBytes(e): the interface value e holds a []byte
+			v := x.asScalar(x.eval(env, args[0]), e)
+			bt := types.NewSlice(types.Universe.Lookup("byte").Type())
+			return Scalar{And(Neq(v.T, IntC(0)), Eq(App("dyntype", SInt, v.T), IntC(x.typeTag(bt)))), tyBool}
+		case "unboxBytes":
+			// unboxBytes(e): the []byte held by the interface value e (meaningful under isBytes(e))
+			v := x.asScalar(x.eval(env, args[0]), e)
+			bt := types.NewSlice(types.Universe.Lookup("byte").Type())
+			return st.heapLoad(v.T, "box:"+typeKey(bt), bt)
 		case "held":
 			return Scalar{x.heldTerm(env, args[0]), tyBool}
 		case "typeIs":
